@@ -2,6 +2,7 @@
 import TF.Drv.Proto
 import TF.Model.Codec
 import TF.Gen.CodecLeaves
+import TF.Gen.CodecGeneric
 /-!
 driver handlers for the codec families (C03 `codec`, C13 `codec13`, C14 `derive`)
 
@@ -139,9 +140,92 @@ def leafGen (op : String) (args : List Arg) : Option String :=
       | _ => none
   | _, _ => none
 
-/-- the family handler: the hand model's reply; where the regenerated code has an opinion (leaf types) it must be the same -/
+/-! ### BT8: the generic combinators regenerated from source (`TF/Gen/CodecGeneric.lean`) instantiated at every type built
+from the leaves with `Box`, `Option`, `Vec`, `[T; N]`, `Polynomial`, `PhantomData` (item type `T := Val`, the item functions
+are the regenerated decoders of the component, recursively) and evaluated next to the hand model. -/
+open TF.Gen TF.Gen.Loops TF.RustStd in
+def liftLeaf (ok : Bool) (r : Except String Nat) : Res String Val :=
+  if ok then (match r with | .ok n => .ok (.num n) | .error e => .err e) else .panic
+
+def mapRes {ε α β : Type} (f : α → β) : TF.RustStd.Res ε α → TF.RustStd.Res ε β
+  | .ok a => .ok (f a)
+  | .err e => .err e
+  | .panic => .panic
+
+open TF.Gen TF.Gen.Loops TF.RustStd in
+partial def genSL : Ty → Option (Option Nat)
+  | .u64 => some codec_u64_static_length | .u128 => some codec_u128_static_length
+  | .u8 => some codec_u8_static_length | .u16 => some codec_u16_static_length
+  | .u32 => some codec_u32_static_length | .bool => some codec_bool_static_length
+  | .bfe => some codec_bfe_static_length
+  | .phantom => some codec_phantom_static_length
+  | .box t => (genSL t).map codec_box_static_length
+  | .option _ => some codec_option_static_length
+  | .vec _ => some codec_vec_static_length
+  | .array n t => (genSL t).map (codec_array_static_length n)
+  | .poly _ => some codec_poly_static_length
+  | _ => none
+
+open TF.Gen TF.Gen.Loops TF.RustStd in
+partial def genDec : Ty → Option (List Nat → Res String Val)
+  | .u64 => some fun r => liftLeaf (codec_u64_decode_ok r) (codec_u64_decode r)
+  | .u128 => some fun r => liftLeaf (codec_u128_decode_ok r) (codec_u128_decode r)
+  | .u8 => some fun r => liftLeaf (codec_u8_decode_ok r) (codec_u8_decode r)
+  | .u16 => some fun r => liftLeaf (codec_u16_decode_ok r) (codec_u16_decode r)
+  | .u32 => some fun r => liftLeaf (codec_u32_decode_ok r) (codec_u32_decode r)
+  | .bool => some fun r => if codec_bool_decode_ok r then
+      (match codec_bool_decode r with | .ok b => .ok (.num (if b then 1 else 0)) | .error e => .err e) else .panic
+  | .bfe => some fun r => if codec_bfe_decode_ok r then
+      (match codec_bfe_decode r with | .ok w => .ok (.num (bfe_value w)) | .error e => .err e) else .panic
+  | .phantom => some fun r => mapRes (fun _ => Val.unit) (codec_phantom_decode r)
+  | .box t => do
+      let d ← genDec t
+      pure (codec_box_decode d)
+  | .option t => do
+      let d ← genDec t
+      pure fun r => mapRes Val.opt (codec_option_decode d (fun e => ⟨e⟩) r)
+  | .vec t => do
+      let d ← genDec t
+      let sl ← genSL t
+      pure fun r => mapRes Val.list (codec_vec_decode sl d (fun e => ⟨e⟩) r)
+  | .array n t => do
+      let d ← genDec t
+      let sl ← genSL t
+      pure fun r => mapRes Val.list (codec_array_decode n sl d (fun e => ⟨e⟩) r)
+  | .poly t => do
+      let d ← genDec t
+      let sl ← genSL t
+      pure fun r => mapRes Val.list (codec_poly_decode sl d (fun e => ⟨e⟩) valIsZero r)
+  | _ => none
+
+def isLeafTy : Ty → Bool
+  | .u64 | .u128 | .u8 | .u16 | .u32 | .bool | .bfe => true
+  | _ => false
+
+open TF.Gen TF.Gen.Loops TF.RustStd in
+def compGen (op : String) (args : List Arg) : Option String :=
+  match op, args with
+  | "slen", [t] => do
+      let ty ← parseTy t
+      if isLeafTy ty then none else
+      let sl ← genSL ty
+      pure (match sl with | some n => s!"ok:some:{n}" | none => "ok:none")
+  | "dec", [t, s] => do
+      let ty ← parseTy t
+      if isLeafTy ty then none else
+      let seq ← s.natList?
+      if !(seq.all (· < TF.Gen.P)) then none else
+      let d ← genDec ty
+      pure (match d (seq.map bfe_new) with
+        | .ok v => "ok:" ++ fmtVal v
+        | .err _ => "err"
+        | .panic => "panic")
+  | _, _ => none
+
+/-- the family handler: the hand model's reply; where the regenerated code has an opinion (leaf types, and every type built
+    from them with the regenerated generic combinators) it must be the same -/
 def codec : Handler := fun op args =>
-  match run op args, leafGen op args with
+  match run op args, (leafGen op args <|> compGen op args) with
   | some m, some g => some (if g == m then m else "GEN-MISMATCH gen=" ++ g ++ " model=" ++ m)
   | m, _ => m
 
